@@ -68,6 +68,13 @@ func (n SetNotifiesStage) Exec(ctx context.Context, l *slog.Logger, alerts ...*a
 		return ctx, nil, errors.New("repeat interval missing")
 	}
 	expiry := 2 * repeat
+	// The entry has to outlive the wait for the next flush of the group as
+	// well: a repeat interval shorter than the group interval would otherwise
+	// let it be garbage collected in between, and with it the knowledge that
+	// the receiver still has to be told about resolved alerts.
+	if groupInterval, ok := GroupInterval(ctx); ok && groupInterval > repeat {
+		expiry = 2 * groupInterval
+	}
 
 	span.SetAttributes(
 		attribute.Int("alerting.alerts.firing.count", len(firing)),
